@@ -367,6 +367,9 @@ pub fn run(p: &HandoverPlan, log: bool) -> (RunReport, String) {
         let um_id = w.add_actor(Box::new(um));
         w.topo.insert(p.backend.addr, ConnectMode::Listen { delay_ns: 0 });
         let bid = w.add_actor(Box::new(H1Backend::new(p.backend.clone(), Prng::derive(p.seed, "backend"))));
+        // the backend listens before anything else happens: a client that starts within microseconds of the
+        // configuration would otherwise be answered 503 by a worker whose first connect was refused
+        w.prime_actor(bid);
         let mut cids = Vec::new();
         for c in &p.clients { cids.push(w.add_actor(Box::new(H1Client::new(c.clone(), Prng::derive(p.seed, &format!("client/{}", c.name)))))); }
         let channel = h.channel.take().unwrap();
